@@ -109,6 +109,7 @@ type Exec struct {
 	globalRegions []Term
 	curCall  *ssa.CallCommon
 	entryEnv *Env
+	lockIDs  map[string]int
 	against  bool
 }
 
@@ -741,6 +742,10 @@ func (x *Exec) oblige(kind, label string, goal Term, pos token.Pos, text string)
 		// still record trivially discharged obligations? keep the count honest: skip.
 		return nil
 	}
+	if x.flags["lockonly"] && kind != "lock" && !(strings.HasPrefix(kind, "pre@") && strings.HasPrefix(label, "locks")) {
+		// lock-discipline unit: functional obligations of this function are decided elsewhere
+		return nil
+	}
 	// large conjunctive goals are split into one obligation per conjunct (assert-then-assume in order)
 	if len(goal) > 1000 && kind != "cover" {
 		if parts := splitGoal(goal); len(parts) > 1 {
@@ -856,6 +861,12 @@ func (x *Exec) postsAtReturn(fr *Frame, r *ssa.Return, rets []Val, st *State, re
 	if fc.Def != nil && len(rets) == 1 && !x.against {
 		d := x.tr(fc.Def, x.entryEnv)
 		x.oblige("post", "def", implies(reach, eq(rets[0].S, d.S)), pos, "result == "+fc.Def.cstr())
+	}
+	if x.flags["locks"] {
+		x.heapBase(heldKey, heldSort)
+		cur := x.heapGet(st, heldKey, heldSort)
+		base := x.heapGet(x.old, heldKey, heldSort)
+		x.oblige("lock", fmt.Sprintf("balanced@r%d", returnOrdinal(fn, r)), implies(reach, eq(cur, base)), pos, "every lock taken by this call is released on this path (held set at return = held set at entry)")
 	}
 	suffix := ""
 	if nret := countReturns(fn); nret > 1 {
